@@ -44,6 +44,10 @@ type vm struct {
 const (
 	stackSize      = 1024
 	blockStackSize = 16
+
+	// maxRepeatLen bounds the length of a string built by string*int, so that
+	// strings.Repeat cannot panic on a length overflow or an absurd allocation.
+	maxRepeatLen = 1<<31 - 1
 )
 
 type execStats struct {
@@ -181,6 +185,9 @@ func (vm *vm) run() error {
 			case instr == opMUL && isString(peek(1)) && isInt(peek(0)):
 				if peek(0).(int) < 0 {
 					return vm.runtimeError("MUL: negative repeat count")
+				}
+				if n := peek(0).(int); n > 0 && len(peek(1).(string)) > maxRepeatLen/n {
+					return vm.runtimeError("MUL: repeated string too long")
 				}
 				b, a := pop().(int), pop().(string)
 				push(strings.Repeat(a, b))
